@@ -117,6 +117,8 @@ class C04(Prop):
         for c in real:
             s2 = copy.deepcopy(spec)
             s2["faults"] = [{"k": "drop", "i": e["i"]} for e in ex["taplog"] if e["conn"] != c["id"]]
+            # "as if it were alone": only this connection's packets and only its own key-log lines, in canonical order
+            s2["keychan"] = {"mode": "file", "only_conn": c["id"]}
             ex2 = world.expand(s2)
             r2 = run_export(lane, s2, ex2, out)
             if failure_class(r2):
